@@ -1,9 +1,11 @@
 (* Spec/PingSpec.v — the property as a table-free reference machine.
 
-   A call is (identifier, replied?, outcome).  An echo reply carrying identifier i marks every call
-   that is waiting with that identifier; a call that ends returns nil iff it is marked, ErrTimeout
-   otherwise; a call whose send failed returned the error at once.  "No waiter entry is left
-   behind": the entries needed are exactly the calls that are waiting and not yet marked.
+   A call is (identifier, replied?, outcome).  It exists from the moment it has been given its
+   identifier (its request may still be on its way out).  An echo reply carrying identifier i
+   marks every call that has not returned and carries that identifier; a call whose send fails
+   returns that error; a call that ends returns nil iff it is marked, ErrTimeout otherwise.
+   "No waiter entry is left behind": the entries needed are exactly the calls that have not
+   returned and are not yet marked.
    Nothing here knows about a table, a next-id counter, channels or timers. *)
 From PV Require Import Base.Prelude.
 Open Scope N_scope.
@@ -14,7 +16,8 @@ Record call := mkCall { c_id : N; c_replied : bool; c_out : option outcome }.
 Definition sstate := list (nat * call).
 
 Inductive sevent : Set :=
-| SBegin (p : nat) (i : N) (ok : bool)
+| SBegin (p : nat) (i : N)
+| SFail (p : nat)
 | SReply (i : N)
 | SOther
 | SEnd (p : nat).
@@ -24,36 +27,45 @@ Fixpoint sget (st : sstate) (p : nat) : option call :=
   | [] => None
   | (p', c) :: r => if Nat.eqb p' p then Some c else sget r p
   end.
+Fixpoint sset (st : sstate) (p : nat) (c : call) : sstate :=
+  match st with
+  | [] => [(p, c)]
+  | (p', c') :: r => if Nat.eqb p' p then (p, c) :: r else (p', c') :: sset r p c
+  end.
 
 Definition c_waiting (c : call) : bool := match c_out c with None => true | Some _ => false end.
 
 Definition mark (i : N) (pc : nat * call) : nat * call :=
-  let '(p, c) := pc in
-  if c_waiting c && (c_id c =? i) then (p, mkCall (c_id c) true (c_out c)) else (p, c).
+  if c_waiting (snd pc) && (c_id (snd pc) =? i)
+  then (fst pc, mkCall (c_id (snd pc)) true (c_out (snd pc))) else pc.
 
-Fixpoint finish (st : sstate) (p : nat) : option sstate :=
-  match st with
-  | [] => None
-  | (p', c) :: r =>
-      if Nat.eqb p' p then
-        if c_waiting c
-        then Some ((p', mkCall (c_id c) (c_replied c) (Some (if c_replied c then ONil else OTimeout))) :: r)
-        else None
-      else option_map (cons (p', c)) (finish r p)
+(* the call p returns with the outcome f tells *)
+Definition settle (st : sstate) (p : nat) (f : call -> outcome) : option sstate :=
+  match sget st p with
+  | Some c => if c_waiting c then Some (sset st p (mkCall (c_id c) (c_replied c) (Some (f c)))) else None
+  | None => None
   end.
 
 Definition sstep (st : sstate) (e : sevent) : option sstate :=
   match e with
-  | SBegin p i ok =>
+  | SBegin p i =>
       match sget st p with
       | Some _ => None
-      | None => Some ((p, mkCall i false (if ok then None else Some OErr)) :: st)
+      | None => Some (st ++ [(p, mkCall i false None)])
       end
+  | SFail p => settle st p (fun _ => OErr)
   | SReply i => Some (map (mark i) st)
   | SOther => Some st
-  | SEnd p => finish st p
+  | SEnd p => settle st p (fun c => if c_replied c then ONil else OTimeout)
+  end.
+
+Fixpoint srun (st : sstate) (es : list sevent) : option sstate :=
+  match es with
+  | [] => Some st
+  | e :: r => match sstep st e with Some st' => srun st' r | None => None end
   end.
 
 (* the waiter entries the calls need *)
+Definition needs_entry (c : call) : bool := c_waiting c && negb (c_replied c).
 Definition entries (st : sstate) : nat :=
-  List.length (filter (fun pc : nat * call => c_waiting (snd pc) && negb (c_replied (snd pc))) st).
+  List.length (filter (fun pc : nat * call => needs_entry (snd pc)) st).
